@@ -1091,14 +1091,16 @@ def wide_recipes_3(tier, add):
             o = {k: c[k] for k in ('wavelet', 'nlevels', 'pad_mode', 'pad_const', 'axes', 'shape', 'field')}
             if c['prec'] == 'single':
                 o['prec'] = 'single'
-            # the discrete transform is orthogonal only if no boundary extension is involved: filters of length 2 on even
-            # lengths, or periodisation on lengths divisible by 2^levels
+            # the discrete transform is orthogonal only if no boundary extension other than zero padding is involved: zero
+            # padding ('constant': an isometry onto the kept coefficients), filters of length 2 on even lengths, or
+            # periodisation on lengths divisible by 2^levels
             lens = wv_lens(c)
             nl = {'default': None, '1': 1, '2': 2}[c['nlevels']]
             import pywt
             lv = nl if nl is not None else min(pywt.dwt_max_level(n, FLEN[c['wavelet']]) for n in lens)
             even = all(n % (2 ** lv) == 0 for n in lens)
-            o['boundary'] = 'untouched' if even and (FLEN[c['wavelet']] == 2 or c['pad_mode'] == 'pywt_periodic') else 'touched'
+            o['boundary'] = 'untouched' if c['pad_mode'] == 'constant' or (
+                even and (FLEN[c['wavelet']] == 2 or c['pad_mode'] == 'pywt_periodic')) else 'touched'
             add('WaveletTransform', o, lambda c=c: wv_mk(c, False))
             add('WaveletTransformInverse', o, lambda c=c: wv_mk(c, True))
             add('WaveletTransformInverse', dict(o, ctor='direct'), lambda c=c: wv_mk(c, 'ctor'))
